@@ -143,6 +143,9 @@ func verifRefMatch(op, dt string, cv, sv any, exists bool) (match, defined bool)
 		// "When a Field is absent in all spans within a trace, the associated rule does not apply"
 		return op == config.NotExists, true
 	}
+	if _, isArray := sv.([]any); isArray && op != config.Exists && op != config.NotExists {
+		return false, false // no documented comparison for array values: no-panic only
+	}
 	switch op {
 	case config.Exists:
 		return true, true
@@ -286,6 +289,8 @@ func Harness_C08_C28_matchers() {
 	dt := verifDatatypes[zz.Choose("datatype", len(verifDatatypes))]
 	printed := dt == "string" || dt == "bool" || !verifIsCompare(op)
 	parsed := dt == "int" || dt == "float"
+	// untyped comparisons see the numbers themselves: any 64-bit integer, not only small ones
+	wide := dt == "" && verifIsCompare(op)
 
 	var cv any
 	vk := zz.Choose("valueKind", 6)
@@ -298,7 +303,11 @@ func Harness_C08_C28_matchers() {
 	case 0:
 		cv = verifString("value.str", parsed)
 	case 1:
-		cv = int(verifSmall("value.int"))
+		if wide {
+			cv = zz.NondetInt("value.wideInt") // any integer: large IDs must compare exactly
+		} else {
+			cv = int(verifSmall("value.int"))
+		}
 	case 2:
 		cv = verifFloat("value.float", printed)
 	case 3:
@@ -309,7 +318,7 @@ func Harness_C08_C28_matchers() {
 
 	var sv any
 	exists := true
-	sk := zz.Choose("spanKind", 6)
+	sk := zz.Choose("spanKind", 7) // 6 = present with a nil value
 	if op == config.MatchesRegexp && sk != 0 {
 		sv = []any{"a", "b7", "", int64(7), true, 1.5, nil}[zz.Choose("subject", 7)]
 		sk = -1
@@ -320,11 +329,19 @@ func Harness_C08_C28_matchers() {
 	case 1:
 		sv = verifString("span.str", parsed)
 	case 2:
-		sv = verifSmall("span.int")
+		if wide {
+			sv = zz.NondetInt64("span.wideInt")
+		} else {
+			sv = verifSmall("span.int")
+		}
 	case 3:
 		sv = verifFloat("span.float", printed)
 	case 4:
 		sv = zz.NondetBool("span.bool")
+	case 5:
+		// an array-valued field (JSON / msgpack arrays are legal field values): no documented
+		// comparison, but evaluating any condition against it must not panic
+		sv = []any{int64(1), "x"}
 	}
 
 	m := map[string]any{"other": int64(1)}
